@@ -277,3 +277,31 @@ HOOKS['day_difference'] = [
      cut("(Z)(c4_diff / 400) * 146097 + (Z)delta == DAYORD(y1, m1, d1) - DAYORD(y2, m2, d2)", "the returned sum is the ordinal distance")),
 ]
 GHOST['ymd_ord'] = {0: "REVEAL_ORDI((int)y, m, d);"}
+
+
+# --- operator-(n): for n == INT64_MIN the code steps by INT64_MAX and then by 1; the intermediate ordinal lies between the argument's and the
+# (representable) result's, and representability is monotone through the floor divisions (lemma_dm_mono) ------------------------------------
+def _minus_ghost(tag):
+    unit = {'second': 'OSEC(a)', 'minute': 'OMIN(a)', 'hour': 'OHOUR(a)', 'day': 'ODAY(a)'}[tag]
+    chain = {'second': ['FD60', 'FD60', 'FD24'], 'minute': ['FD60', 'FD24'], 'hour': ['FD24'], 'day': []}[tag]
+    g = ["if (n == INT_FAST64_MIN) {",
+         "const Z g_u0 = %s;" % unit, "const Z g_u1 = g_u0 + (Z)INT64_MAX;", "const Z g_u2 = g_u0 + (Z)INT64_MAX + 1;",
+         "BOUND_DAYORD(a.y, a.m, a.d);",
+         use('validrepr', ['a.y', 'a.m', 'a.d']),
+         use('dm_small', ['a.ss']), use('dm_small', ['a.mm']), use('dm_small', ['a.hh']),
+         use('dm_lin', ['OMIN(a)', 'a.ss']), use('dm_lin', ['OHOUR(a)', 'a.mm']), use('dm_lin', ['ODAY(a)', 'a.hh'])]
+    def nest(x, k):
+        for f in chain[:k]:
+            x = '%s(%s)' % (f, x)
+        return x
+    g.append(cut("%s == ODAY(a)" % nest('g_u0', len(chain)), "the day of the argument's unit ordinal is its day ordinal"))
+    for k in range(len(chain)):
+        g.append(use('dm_mono', [nest('g_u0', k), nest('g_u1', k)]))
+        g.append(use('dm_mono', [nest('g_u1', k), nest('g_u2', k)]))
+    g.append(cut("REPR_%s(g_u1)" % tag, "the intermediate ordinal is representable"))
+    g.append("}")
+    return "\n".join(g)
+
+
+for _t in ('second', 'minute', 'hour', 'day'):
+    HOOKS['ct_%s_minus' % _t] = [(r'return n != \( std :: numeric_limits < diff_t > :: min \) \( \)', _minus_ghost(_t))]
